@@ -26,6 +26,11 @@ theorem evalPureList_eq_flatten (ps : List Pre) :
   | nil => rfl
   | cons p ps ih => simp [evalPureList, ih]
 
+theorem evalPureList_wrap (op cl : Bytes) (ps : List Pre) :
+    evalPureList H (lit op :: ps ++ [lit cl]) = op ++ ((ps.map (evalPure H)).flatten ++ cl) := by
+  rw [List.cons_append, evalPureList_lit, evalPureList_append, evalPureList_eq_flatten]
+  simp [evalPureList, lit, evalPure]
+
 /-- bytes of `bytes_repr_mapping_contents` given the digests of the values -/
 def mapBytes : List (Scalar × Bytes) → Bytes
   | [] => []
@@ -41,6 +46,11 @@ theorem evalPureList_mapContents (l : List (Scalar × Pre)) :
     obtain ⟨k, p⟩ := kp
     simp only [mapContents, evalPureList, lit, evalPure, List.map_cons, mapBytes, digestItem, ih,
       List.append_assoc]
+
+theorem evalPureList_wrapMap (op cl : Bytes) (s : List (Scalar × Pre)) :
+    evalPureList H (lit op :: mapContents s ++ [lit cl]) = op ++ (mapBytes (s.map (digestItem H)) ++ cl) := by
+  rw [List.cons_append, evalPureList_lit, evalPureList_append, evalPureList_mapContents]
+  simp [evalPureList, lit, evalPure]
 
 /-! ### preList / preItems as traversals -/
 
